@@ -33,7 +33,7 @@ Record FieldSpec (q : prop) (f : fld) : Prop := {
   fs_type : smatch mm Sg alias_objects SM_FUEL (expected_type mm q) (ftype f) = true;
   fs_validator : fval f = expected_vkind q;
   fs_valopt : fvalopt f = expected_valopt q;
-  fs_omit : fomit f = negb (is_special q) }.
+  fs_omit : fdefault f <> NoDefault -> fomit f = negb (is_special q) }.
 
 Lemma dflt_eqb_eq a b : dflt_eqb a b = true -> a = b.
 Proof. destruct a, b; cbn; try discriminate; auto. intros H. apply String.eqb_eq in H. congruence. Qed.
@@ -51,6 +51,7 @@ Proof.
          end.
   repeat match goal with H : _ && _ = true |- _ => apply andb_true_iff in H; destruct H end.
   constructor; auto using dflt_eqb_eq, vkind_eqb_eq, eqb_prop; try (apply String.eqb_eq; assumption).
+  intros N. match goal with H : omit_okb f q = true |- _ => unfold omit_okb in H; destruct (fdefault f); [contradiction | apply eqb_prop; exact H ..] end.
 Qed.
 
 Lemma class_ok_spec c ps : class_ok c ps = true ->
